@@ -73,6 +73,33 @@ func arBases() []base {
 	}
 }
 
+// debWideSet restricts the wide product on the (4 KiB, deb.Load-executed) .deb bases: every single corruption, and
+// the pairs name x name and name x size (left-aligned size classes) over all member pairs; the small bases ar2/ar3
+// take the full product.
+func debWideSet(coreSize []map[string]bool, cs []corr) bool {
+	if len(cs) == 1 {
+		return true
+	}
+	if len(cs) != 2 {
+		return false
+	}
+	core := func(c corr) bool {
+		return c.Col == "name" || (c.Col == "size" && coreSize[c.M][c.Val])
+	}
+	return (cs[0].Col == "name" || cs[1].Col == "name") && core(cs[0]) && core(cs[1])
+}
+
+func coreSizes(b base) []map[string]bool {
+	out := make([]map[string]bool, len(b.ms))
+	for i, m := range b.ms {
+		out[i] = map[string]bool{}
+		for _, v := range colValues("size", len(m.Data), false) {
+			out[i][v] = true
+		}
+	}
+	return out
+}
+
 // debPre is deb-stored with an EMPTY member in front (an earlier member without data, e.g. for an empty name table).
 func debPre() base {
 	b := debBase(false, false)
@@ -489,7 +516,7 @@ func Run(r *mc.Run) {
 	probeB := append(append([]base{}, debB...), debPre())
 	r.Scenario("load-size-single", map[string]interface{}{"bases": len(probeB), "size_templates": sizeVals, "readerat_conventions": 2,
 		"alignments": "L left | R right-aligned | C one leading blank | T leading tab | Z leading zeros | P leading '+'",
-		"note": "a shard (= one size template) stops at its first hang; later scenarios skip the size texts that hung"},
+		"note":       "a shard (= one size template) stops at its first hang; later scenarios skip the size texts that hung"},
 		len(sizeVals), func(vi int, st *mc.Stats) bool {
 			lim := limiter{}
 			for _, b := range probeB {
@@ -586,6 +613,7 @@ func Run(r *mc.Run) {
 	for _, b := range []base{arB[0], arB[1], debB[0], debB[1], debPre()} {
 		b := b
 		all := singlesOf(b.ms, true)
+		cs0 := coreSizes(b)
 		kb := kw
 		if !b.deb && !r.Quick() {
 			kb = 3
@@ -595,12 +623,15 @@ func Run(r *mc.Run) {
 			via = "ar + deb.Load"
 		}
 		r.Scenario("wide-columns-"+b.name, map[string]interface{}{"base": b.name, "members": len(b.ms), "columns": wideCols, "single_corruptions": len(all),
-			"max_columns_corrupted": kb, "via": via, "readerat_conventions": 2,
+			"max_columns_corrupted": kb, "via": via, "readerat_conventions": 2, "deb_bases_pairs": "name x name and name x left-aligned size only",
 			"name_values": colValues("name", 0, true), "mode_values": colValues("mode", 0, true), "uid_values": colValues("uid", 0, true)},
 			len(all), func(shard int, st *mc.Stats) bool {
 				lim := limiter{}
 				complete := true
 				supersets(all, shard, kb, func(cs []corr) bool {
+					if b.deb && !debWideSet(cs0, cs) {
+						return true
+					}
 					bs := gen.ArmBuild(apply(b.ms, cs))
 					d := descOf(b, cs)
 					st.Transitions++
